@@ -112,27 +112,28 @@ def plan_c01(tier, seed):
     names, txt = sweep_harness_text('decode', sel)
     hs += [H(n, bounded='one plane symbolic over all codes, other two fixed at the companions in the name', domain=n,
              desc='real to_f32_* + inv.mul_arr vs H.273 closed form in f64, 3e-6') for n in names]
-    return {'verus': [('u_matrix', {}), ('u_color', {})],
+    return {'verus': [('u_matrix', {}), ('u_color', {}), ('u_round', {})],
             'kani': [{'crate_dir': '', 'inject': [YR, KC], 'append': [('k_color.rs', txt)], 'harnesses': hs}]}
 reg('C01', plan=plan_c01, level='proof', min_obligations=400,
     title='YUV->RGB decoding equals the H.273 definition',
-    technique='Verus: real color.rs/matrix.rs under exact-field contracts (decode = inverse of the H.273 encode matrix, Kr/Kb table); Kani: bit-precise normalisation of every code and input-free evaluation of all 7 decode matrices; bounded per-plane sweeps for the 3x3 rounding',
+    technique='Verus: real color.rs/matrix.rs under exact-field contracts (decode = inverse of the H.273 encode matrix, Kr/Kb table) and the real mul_arr under the standard model of f32 rounding (error budget lemma for all triples); Kani: bit-precise normalisation of every code and input-free evaluation of all 7 decode matrices; bounded per-plane sweeps',
     text='Proof in three contract layers on the real code: (1) Verus, exact reals: get_yuv_constants is the H.273 Kr/Kb table, the forward matrix is the H.273 encode matrix for symbolic Kr,Kb, '
          'get_yuv_to_rgb_matrix is its inverse (inv*fwd = I proved for every invertible matrix), mul_arr is the exact product; (2) Kani, bit-precise and complete: every code of every depth 8..16, both ranges, '
-         'u8/u16 normalises to clamp((c-black)/range) within 1e-6, and each f32 entry of all 7 real decode matrices is within 2e-7 of the closed form; (3) bounded sweeps of the real composite per plane against the closed form (3e-6). '
-         'Not proved: that f32 rounding of the 3-term products stays within 3e-6 for ALL triples simultaneously (only swept).',
+         'u8/u16 normalises to clamp((c-black)/range) within 1.2e-7, and each f32 entry of all 7 real decode matrices is within 4e-7 of the closed form; (3) Verus U-round: the real generic mul_arr, for every T obeying the STANDARD MODEL of binary32 rounding '
+         '(relative error 2^-24 per operation, fused or unfused), is within 7e-7 of the exact product at decode-path magnitudes, and lemma_decode_budget composes (2) and (3) into |result - H.273 value| <= 3e-6 for ALL (Y,U,V) triples at once; '
+         '(4) bounded sweeps of the real composite per plane bit-precisely. The composition step rests on the standard model (an assumption about f32, not bit-blasted) and on reading the Kani bounds as hypotheses.',
     note=EXACT + ' for layer 1; ' + BITPRECISE + '; the composite 3e-6 bound for arbitrary triples rests on the margin argument (entry error 2e-7, normalisation error <= 1e-6) and the bounded sweeps. ' + TOOLS,
-    assumptions=[EXACT, BITPRECISE, 'per-pixel loop of yuv_to_rgb is a map of the kernels (proved structurally under C11)'],
-    not_decided=['3e-6 for all (Y,U,V) triples simultaneously: monolithic bit-precise query did not finish in 26 min; swept per plane only'],
+    assumptions=[EXACT, BITPRECISE, 'SM: standard model of binary32 arithmetic (each operation: relative error <= 2^-24 plus 2^-149; no overflow)', 'f64 evaluation of the closed forms inside the Kani harnesses is exact to ~1e-16', 'per-pixel loop of yuv_to_rgb is a map of the kernels (proved structurally under C11)'],
+    not_decided=['a monolithic BIT-PRECISE proof for all triples (did not finish in 26 min): the all-triples bound is proved under the standard model of f32 rounding instead, with the Kani component bounds as hypotheses'],
     design_ref='DESIGN.md §5 C01')
 
 # ------------------------------------------------------------------------------------------- C02
 def plan_c02(tier, seed):
-    hs = [H(n, domain='v: every f32 in [-2,2]', desc='|code - clamp(range*v+black,0,max)| <= 0.5 + 1e-6*2^n, ideal exact in f64') for n in depth_names('quant_luma', 'thorough')]
+    hs = [H(n, domain='v: every f32 in [-2,2]', desc='|code - clamp(range*v+black,0,max)| <= 0.5 + 4e-7*2^n for the f32 value v fed to the quantiser, ideal exact in f64') for n in depth_names('quant_luma', 'thorough')]
     hs += [H(n, domain='v: every f32 in [-2,2]', desc='chroma quantiser incl. the full-range -0.5 special case') for n in depth_names('quant_chroma', 'thorough')]
     hs += [H(n, domain='v: all 2^32 f32 bit patterns', desc='emitted luma and chroma codes <= 2^n-1') for n in depth_names('codes_valid', 'thorough')]
     hs += [H(f'encode_{m}', domain='input-free', desc='every f32 entry of the real get_rgb_to_yuv_matrix within 6e-8 of the H.273 closed form (f64)') for m in MATS]
-    return {'verus': [('u_color', {}), ('u_dispatch', {})],
+    return {'verus': [('u_color', {}), ('u_dispatch', {}), ('u_round', {})],
             'kani': [{'crate_dir': '', 'inject': [YR, KC], 'harnesses': hs}]}
 reg('C02', plan=plan_c02, level='proof', min_obligations=400,
     title='RGB->YUV encoding rounds to the nearest H.273 code',
@@ -140,31 +141,38 @@ reg('C02', plan=plan_c02, level='proof', min_obligations=400,
     text='Complete bit-precise proof (Kani, loop-free, v symbolic over every f32 in [-2,2] and, for validity, over all 2^32 bit patterns) that from_f32_luma/from_f32_chroma with the real get_scale_offset '
          'produce the code nearest to range*v+black clamped to [0,2^n-1], all depths 8..16, both ranges, u8/u16; all 7 real encode matrices are bit-precisely within 6e-8 of the H.273 closed form and '
          'equal it exactly under real semantics (Verus, symbolic in Kr,Kb); the output carries the requested config (Unspecified fields resolved) and dimensions, plane sizes (w>>ss_x, h>>ss_y) (Verus contracts on rgb_to_yuv / ypbpr_to_ycbcr / Yuv::new / the TryFrom body, U-dispatch). '
-         'Not proved: f32 rounding of the 3x3 product feeding the quantiser for arbitrary RGB triples.',
+         'ALL RGB AT ONCE (Verus U-round): under the standard model of binary32 rounding the real fwd.mul_arr is within 6e-7 of the exact H.273 value for every rgb in [-0.5,1.5]^3 (lemma_encode_budget, with the Kani entry bound 6e-8 and row sums <= 1), '
+         'so range*6e-7 plus the quantiser\'s own 0.5 + 4e-7*2^n (Kani, for the f32 value actually fed) stay inside the property\'s 0.5 + 1e-6*2^n.',
     note=EXACT + ' for the matrix layer; ' + BITPRECISE + '. ' + TOOLS,
-    assumptions=[EXACT, BITPRECISE, 'v_frame accessor contracts (see C07/C11)'],
-    not_decided=['f32 rounding of the 3x3 product for arbitrary RGB triples (matrix entries are pinned to 6e-8; the product adds <= 3 roundings)'],
+    assumptions=[EXACT, BITPRECISE, 'SM: standard model of binary32 arithmetic (each operation: relative error <= 2^-24 plus 2^-149; no overflow)', 'v_frame accessor contracts (see C07/C11)'],
+    not_decided=['a monolithic bit-precise proof over all RGB triples: the composition is proved under the standard model of f32 rounding with the Kani bounds as hypotheses'],
     design_ref='DESIGN.md §5 C02')
 
 # ------------------------------------------------------------------------------------------- C08
 def plan_c08(tier, seed):
     hs = [H(n, domain='all codes <= 2^n-1', desc='from_f32_luma(to_f32_luma(c)) == clamp(c,16k,235k) (full: == c)') for n in depth_names('rt_luma', 'thorough')]
     hs += [H(n, domain='all codes <= 2^n-1', desc='from_f32_chroma(to_f32_chroma(c)) == clamp(c,16k,240k) (full: == c, or 0 -> 1)') for n in depth_names('rt_chroma', 'thorough')]
+    hs += [H(n, domain='all codes <= 2^n-1 x every f32 perturbation |e| <= 2.5e-6', desc='from_f32_luma(to_f32_luma(c) + e) returns the (legal-range-clamped) code: the quantiser absorbs the matrix round-trip error') for n in depth_names('rt_pert_luma', 'thorough')]
+    hs += [H(n, domain='all codes <= 2^n-1 x every f32 perturbation |e| <= 2.5e-6', desc='same for chroma (full range: code 0 may become 1)') for n in depth_names('rt_pert_chroma', 'thorough')]
+    hs += [H(f'decode_{m}', domain='input-free', desc='decode matrix entries within 4e-7 of the closed form; row magnitudes') for m in MATS]
+    hs += [H(f'encode_{m}', domain='input-free', desc='encode matrix entries within 6e-8 of the closed form; row abs sums <= 1') for m in MATS]
     sel = sweep_selection('roundtrip', tier, seed)
     names, txt = sweep_harness_text('roundtrip', sel)
     hs += [H(n, bounded='one plane symbolic over all codes, other two fixed at the companions in the name', domain=n,
              desc='real composite from_f32 . fwd.mul_arr . inv.mul_arr . to_f32 returns the (legal-range-clamped) codes') for n in names]
-    return {'verus': [('u_color', {})],
+    return {'verus': [('u_color', {}), ('u_round', {})],
             'kani': [{'crate_dir': '', 'inject': [YR, KC], 'append': [('k_color.rs', txt)], 'harnesses': hs}]}
 reg('C08', plan=plan_c08, level='proof', min_obligations=400,
     title='YUV->RGB->YUV is a lossless code round trip',
-    technique='Kani: complete bit-precise proof that code->float->code is the identity per plane (all codes, depths, ranges, storage); Verus: fwd*inv = I exactly for the 7 matrices; bounded per-plane sweeps through the real 3x3 composite',
+    technique='Kani: complete bit-precise proofs that code->float->code is the identity per plane AND absorbs any perturbation |e| <= 2.5e-6 (all codes, depths, ranges, storage); Verus: fwd*(inv*v) = v exactly and, under the standard model of f32 rounding, the real inv.mul_arr then fwd.mul_arr stay within 2.5e-6 for ALL triples; bounded per-plane sweeps',
     text='Complete bit-precise proof per plane that the real to_f32_* / from_f32_* pair returns every code (after legal-range clamping; full-range chroma 0 may become 1), for all depths 8..16, both ranges, u8/u16; '
-         'exact-real proof (Verus) that the decode matrix is the two-sided inverse of the encode matrix for the 7 standards; bounded per-plane sweeps of the real composite including both matrix products. '
-         'Not proved: exact losslessness for all (Y,U,V) triples simultaneously (cross-plane f32 rounding) - only swept.',
-    note=EXACT + ' for fwd*inv=I; ' + BITPRECISE + '; cross-plane rounding for arbitrary triples is a margin argument (composite error ~1e-6 << 0.5/65535), not machine-checked. ' + TOOLS,
-    assumptions=[EXACT, BITPRECISE],
-    not_decided=['all 2^24..2^48 triples simultaneously through both 3x3 products (monolithic query intractable; per-plane sweeps only)'],
+         'exact-real proof (Verus) that the decode matrix is the two-sided inverse of the encode matrix for the 7 standards and fwd*(inv*v) = v for every vector; ALL TRIPLES AT ONCE: (Verus U-round) for every T obeying the standard model of binary32 rounding the real '
+         'generic mul_arr has the a-priori error row_bound, and lemma_roundtrip_budget shows that the f32 value after inv.mul_arr then fwd.mul_arr is within 2.5e-6 of the normalised input in every plane, given the Kani-proved entry bounds (4e-7 / 6e-8) and row magnitudes; '
+         '(Kani rt_pert_*) the real quantiser returns the code for EVERY code and EVERY perturbation |e| <= 2.5e-6, all depths 8..16, both ranges, u8/u16. Bounded per-plane sweeps check the real composite bit-precisely. '
+         'The composition rests on the standard model (assumption about f32) and on reading the Kani bounds as hypotheses of the Verus lemma.',
+    note=EXACT + ' for fwd*inv=I; ' + BITPRECISE + '; SM: standard model of binary32 arithmetic for the cross-plane composition (machine-checked lemma, assumed model). ' + TOOLS,
+    assumptions=[EXACT, BITPRECISE, 'SM: standard model of binary32 arithmetic (each operation: relative error <= 2^-24 plus 2^-149; no overflow)', 'the f32 addition `to_f32(c) + e` in rt_pert_* ranges over every f32 e, so it covers every value within 2.5e-6 of the normalised code'],
+    not_decided=['a monolithic BIT-PRECISE proof for all triples (intractable): all-triples losslessness is proved under the standard model with the Kani component bounds as hypotheses'],
     design_ref='DESIGN.md §5 C08')
 
 # ------------------------------------------------------------------------------------------- C07 / C11 / C12 (U-planes)
